@@ -238,6 +238,10 @@ Proof.
   destruct (auth_layout_ok data); discriminate.
 Qed.
 
+Lemma authentication_request_no_panic_378 data p1 :
+  p1 = 3 \/ p1 = 7 \/ p1 = 8 -> authentication_request_try_from data p1 <> Panic.
+Proof. intros H. apply authentication_request_no_panic. apply control_byte_cases. exact H. Qed.
+
 (** the known finding, exactly: the public entry point panics iff the payload is laid out
     correctly and the parameter byte is none of 3, 7, 8 *)
 Lemma authentication_request_panic_iff data p1 :
@@ -457,6 +461,11 @@ Proof.
   unfold request_allocs. destruct (request_try_from value) as [r| |]; cbn [length]; try lia.
   destruct (r_data r); cbn [length]; lia.
 Qed.
+
+Theorem request_try_from_cost value :
+  Forall (fun n => (n + 72 <= length value)%nat) (request_allocs value) /\
+  (length (request_allocs value) <= 1)%nat.
+Proof. split; [apply request_allocs_bounded|apply request_allocs_at_most_one]. Qed.
 
 Theorem authentication_request_allocs_bounded data :
   Forall (fun n => (n + 65 <= length data)%nat /\ (n <= 255 \/ ~ bytes_ok data)%nat)
